@@ -1,5 +1,5 @@
 import YaegiVerif.Proofs.C03Bin
-/- C03: unary operators, conversions and shifts of the integer fragment -/
+/- C03: unary operators and conversions of the integer fragment, both directions -/
 namespace YaegiVerif.Proofs.C03
 open YaegiVerif YaegiVerif.Const
 
@@ -20,96 +20,166 @@ theorem wrapK_inot_unsigned (k : IKind) (hk : k.signed = false) (v : Int) (h : S
     simp only [wrapK, inot, IKind.signed, IKind.bits, Bool.false_and, Bool.false_eq_true, if_false] <;>
     first | omega | exact absurd hk (by decide)
 
+/-- the complement of an unsigned value within its width (`constant.UnaryOp(token.XOR, x, size)`) -/
+theorem inot_mod_unsigned (k : IKind) (hk : k.signed = false) (v : Int) (h : Spec.reprGo k v = true) :
+    (inot v) % (2 ^ k.bits : Int) = (2 ^ k.bits : Int) - 1 - v := by
+  rw [reprGo_iff] at h
+  cases k <;> simp only [IKind.signed] at hk <;>
+    simp only [IKind.minVal, IKind.maxVal, IKind.signed, IKind.bits, if_false, Bool.false_eq_true] at h <;>
+    simp only [inot, IKind.bits] <;>
+    first | omega | exact absurd hk (by decide)
+
+theorem repr_compl_unsigned (k : IKind) (hk : k.signed = false) (v : Int) (h : Spec.reprGo k v = true) :
+    Spec.reprGo k ((2 ^ k.bits : Int) - 1 - v) = true := by
+  rw [reprGo_iff] at h ⊢
+  cases k <;> simp only [IKind.signed] at hk <;>
+    simp only [IKind.minVal, IKind.maxVal, IKind.signed, IKind.bits, if_false, Bool.false_eq_true] at h ⊢ <;>
+    first | omega | exact absurd hk (by decide)
+
 def uop (a : Act) (p : Int) : Int :=
   match a with
   | .neg => -p | .pos => p | .bitNot => inot p | _ => 0
 
+/-- the exact result of a unary operator on a constant of integer type `k` -/
+def uopK (k : IKind) (a : Act) (p : Int) : Int :=
+  if a == .bitNot && !k.signed then (2 ^ k.bits : Int) - 1 - p else uop a p
+
 theorem unNodeY_untyped (a : Act) (ha : isUnArith a = true) (c0 : NS) (u : UK) (hu : u = .int ∨ u = .rune) (p : Int)
     (hty : c0.ty = .u u) (hrv : c0.rv = .c (.int p)) :
-    unNodeY F0 a c0 = .ok { rv := .c (.int (uop a p)), ty := .u u, inner := c0.loose } := by
-  obtain ⟨rv0, ty0, s0, i0', f0⟩ := c0
-  simp only at hty hrv
-  subst hty hrv
-  rcases hu with rfl | rfl <;> cases a <;> simp [isUnArith] at ha <;>
-    simp [unNodeY, unaryPredY, Ty.isNumber, Ty.isInt, Ty.rtype, BT.isInt, foldUnY, F0, Expected.C03.facts,
-      Expected.C03.evalFacts, EvalFacts.foldOf, Expected.C03.constOp, Expected.C03.folds, cUnary, uop]
+    unNodeY F0 a c0 =
+      if bitLen (uop a p) > 512 then .reject
+      else .ok { rv := .c (.int (uop a p)), ty := .u u, inner := c0.loose } := by
+  have hce := constExprY_cc a true c0 c0 (by simp [hrv, isConstRV]) (by simp [hrv, isConstRV])
+  have hfold : foldUnY F0 a (.u u) (.c (.int p)) = .ok (.c (.int (uop a p))) := by
+    cases a <;> simp [isUnArith] at ha <;>
+      simp [foldUnY, F0, Expected.C03.facts, Expected.C03.evalFacts, EvalFacts.foldOf, Expected.C03.constOp,
+        Expected.C03.folds, cUnary, uop]
+  have hpred : unaryPredY a (.u u) = true := by
+    rcases hu with rfl | rfl <;> cases a <;> simp [isUnArith] at ha <;> rfl
+  simp only [unNodeY, hty, hpred, Bool.not_true, Bool.false_eq_true, if_false, F0_chk, Expected.C03.checkFacts, if_true,
+    hce, bind_ok, hrv, hfold, constOverflowY_c]
+  split <;> simp [isSetRV]
+
+theorem constExprY_un_typed (a : Act) (ha : isUnArith a = true) (c0 : NS) (k : IKind) (p : Int)
+    (hty : c0.ty = .t (.i k)) (hrv : c0.rv = .r (.i k) (.int p)) (hp : Spec.reprGo k p = true) :
+    constExprY F0 a true c0 c0 = if Spec.reprGo k (uopK k a p) = true then .ok () else .reject := by
+  have hrep : ∀ r : Int, representableY F0 (.int r) (.i k) = Spec.reprGo k r := by
+    intro r; simp only [representableY, CV.toInt]; exact reprY_eq_reprGo k r
+  have htok : F0.eval.tokOf a = (match a with | .neg => Tok.sub | .pos => Tok.add | .bitNot => Tok.xor | _ => Tok.other) := by
+    cases a <;> simp [isUnArith] at ha <;> rfl
+  have hbits : k.bits ≠ 0 := by cases k <;> simp [IKind.bits]
+  have hmod : k.signed = false → (inot p) % (2 ^ k.bits : Int) = (2 ^ k.bits : Int) - 1 - p :=
+    fun hs => inot_mod_unsigned k hs p hp
+  cases hs : k.signed <;> cases a <;> simp [isUnArith] at ha <;>
+    simp [constExprY, isCmpAct, isShiftAct, hrv, hty, isConstRV, Ty.rtype, BT.isInt, constValueY, CV.toInt, CV.isIntKind,
+      htok, hs, cUnaryP, cUnary, hrep, uopK, uop, hbits, hmod] <;>
+    (try (split <;> simp_all))
 
 theorem unNodeY_typed (a : Act) (ha : isUnArith a = true) (c0 : NS) (k : IKind) (p : Int)
-    (hty : c0.ty = .t (.i k)) (hrv : c0.rv = .r (.i k) (.int p)) :
-    unNodeY F0 a c0 = .ok { rv := .r (.i k) (.int (wrapK k (uop a p))), ty := .t (.i k), inner := c0.loose } := by
-  obtain ⟨rv0, ty0, s0, i0', f0⟩ := c0
-  simp only at hty hrv
-  subst hty hrv
-  cases hs : k.signed <;> cases a <;> simp [isUnArith] at ha <;>
-    simp [unNodeY, unaryPredY, Ty.isNumber, Ty.isInt, Ty.rtype, BT.isInt, BT.isUint, BT.isFloat, foldUnY, F0,
-      Expected.C03.facts, Expected.C03.evalFacts, EvalFacts.foldOf, Expected.C03.constOp, Expected.C03.folds, armOf, hs, uop]
+    (hty : c0.ty = .t (.i k)) (hrv : c0.rv = .r (.i k) (.int p)) (hp : Spec.reprGo k p = true) :
+    unNodeY F0 a c0 =
+      if Spec.reprGo k (uopK k a p) = true then
+        .ok { rv := .r (.i k) (.int (uopK k a p)), ty := .t (.i k), inner := c0.loose, set := true }
+      else .reject := by
+  have hce := constExprY_un_typed a ha c0 k p hty hrv hp
+  have hpred : unaryPredY a (.t (.i k)) = true := by
+    cases a <;> simp [isUnArith] at ha <;> rfl
+  have hfold : foldUnY F0 a (.t (.i k)) (.r (.i k) (.int p)) = .ok (.r (.i k) (.int (wrapK k (uop a p)))) := by
+    cases hs : k.signed <;> cases a <;> simp [isUnArith] at ha <;>
+      simp [foldUnY, F0, Expected.C03.facts, Expected.C03.evalFacts, EvalFacts.foldOf, Expected.C03.constOp,
+        Expected.C03.folds, armOf, Ty.rtype, BT.isInt, BT.isUint, BT.isFloat, hs, uop]
+  simp only [unNodeY, hty, hpred, Bool.not_true, Bool.false_eq_true, if_false, F0_chk, Expected.C03.checkFacts, if_true,
+    hce, hrv, hfold]
+  by_cases hr : Spec.reprGo k (uopK k a p) = true
+  · simp only [if_pos hr, bind_ok]
+    have hw : wrapK k (uop a p) = uopK k a p := by
+      by_cases hb : (a == Act.bitNot && !k.signed) = true
+      · simp only [Bool.and_eq_true, beq_iff_eq, Bool.not_eq_true'] at hb
+        obtain ⟨rfl, hs⟩ := hb
+        simp only [uopK, hs, uop, beq_self_eq_true, Bool.not_false, Bool.and_true, if_true]
+        exact wrapK_inot_unsigned k hs p hp
+      · have : uopK k a p = uop a p := by simp only [uopK, hb]; simp
+        rw [this] at hr ⊢
+        exact wrapK_of_repr k _ hr
+    rw [hw, constOverflowY_r k _ hr]
+    simp [isSetRV]
+  · simp only [if_neg hr, bind_reject]
 
-/-- **unary node** (`+`, `-`, `^`) -/
-theorem unNode_correct (a : Act) (ha : isUnArith a = true) (c0 : NS) (g0 gv : Spec.GV) (i0 : Inv c0 g0)
-    (hgo : Spec.unaryGo a g0 = .ok gv) :
-    ∃ n, unNodeY F0 a c0 = .ok n ∧ Inv n gv := by
+/-- the specification's unary operator on an integer constant of type `k` -/
+theorem unaryGo_typed (a : Act) (ha : isUnArith a = true) (k : IKind) (p : Int) (hp : Spec.reprGo k p = true) :
+    Spec.unaryGo a ⟨.int p, .t (.i k)⟩ =
+      if Spec.reprGo k (uopK k a p) = true then .ok ⟨.int (uopK k a p), .t (.i k)⟩ else .reject := by
+  cases a <;> simp [isUnArith] at ha
+  · -- neg
+    simp only [Spec.unaryGo, Spec.isIntTy, if_true, finish_typed_int_eq, uopK, uop]
+    simp
+  · -- pos
+    simp only [Spec.unaryGo, Spec.isNumTy, Spec.isIntTy, Bool.true_or, if_true, finish_typed_int_eq, uopK, uop]
+    simp
+  · -- bitNot
+    cases hs : k.signed
+    · have hr := repr_compl_unsigned k hs p hp
+      simp [Spec.unaryGo, hs, uopK, hr]
+    · have hr := repr_inot_signed k hs p hp
+      simp [Spec.unaryGo, hs, uopK, uop, hr]
+
+/-- **unary node** (`+`, `-`, `^`), both directions -/
+theorem unNode_rel (a : Act) (ha : isUnArith a = true) (c0 : NS) (g0 : Spec.GV) (i0 : Inv c0 g0) :
+    Rel (unNodeY F0 a c0) (Spec.unaryGo a g0) := by
   rcases i0.shape with ⟨ka, p, hka, rfl, h0ty, h0rv⟩ | ⟨k, p, rfl, h0ty, h0rv, hp⟩
-  · -- untyped
-    refine ⟨_, unNodeY_untyped a ha c0 ka hka p h0ty h0rv, ?_⟩
-    rcases hka with rfl | rfl <;> cases a <;> simp [isUnArith] at ha
-    all_goals
-      simp only [Spec.unaryGo, Spec.isNumTy, Spec.isIntTy, Bool.true_or, if_true] at hgo
-    all_goals first
-      | (injection hgo with hgo; subst hgo; exact Inv.of_untyped _ _ _ (by simp) rfl rfl)
-      | (have hgv := finish_untyped_int _ _ (by simp) gv hgo
-         subst hgv; exact Inv.of_untyped _ _ _ (by simp) rfl rfl)
-  · -- typed
-    refine ⟨_, unNodeY_typed a ha c0 k p h0ty h0rv, ?_⟩
-    cases a <;> simp [isUnArith] at ha
-    · -- neg
-      simp only [Spec.unaryGo, Spec.isIntTy, if_true] at hgo
-      obtain ⟨hgv, hr⟩ := finish_typed_int _ _ gv hgo
-      subst hgv
-      exact Inv.of_typed _ _ _ rfl (by simp [uop, wrapK_of_repr k _ hr]) hr
-    · -- pos
-      simp only [Spec.unaryGo, Spec.isNumTy, Spec.isIntTy, Bool.true_or, if_true] at hgo
-      injection hgo with hgo; subst hgo
-      exact Inv.of_typed _ _ _ rfl (by simp [uop, wrapK_of_repr k _ hp]) hp
-    · -- bitNot
-      cases hs : k.signed
-      · simp only [Spec.unaryGo, hs, Bool.false_eq_true, if_false] at hgo
-        injection hgo with hgo; subst hgo
-        have hw := wrapK_inot_unsigned k hs p hp
-        have hr : Spec.reprGo k ((2 ^ k.bits : Int) - 1 - p) = true := by
-          rw [reprGo_iff] at hp ⊢
-          cases k <;> simp only [IKind.signed] at hs <;>
-            simp only [IKind.minVal, IKind.maxVal, IKind.signed, IKind.bits, if_false, Bool.false_eq_true] at hp ⊢ <;>
-            first | omega | exact absurd hs (by decide)
-        exact Inv.of_typed _ _ _ rfl (by simp [uop, hw]) hr
-      · simp only [Spec.unaryGo, hs, if_true] at hgo
-        injection hgo with hgo; subst hgo
-        have hr := repr_inot_signed k hs p hp
-        exact Inv.of_typed _ _ _ rfl (by simp [uop, wrapK_of_repr k _ hr]) hr
+  · rw [unNodeY_untyped a ha c0 ka hka p h0ty h0rv]
+    have hgo : Spec.unaryGo a ⟨.int p, .u ka⟩ = Spec.finish (.int (uop a p)) (.u ka) := by
+      rcases hka with rfl | rfl <;> cases a <;> simp [isUnArith] at ha <;>
+        simp [Spec.unaryGo, Spec.isNumTy, Spec.isIntTy, uop]
+    rw [hgo, finish_untyped_int_eq _ _ hka]
+    by_cases hb : bitLen (uop a p) > 512
+    · rw [if_pos hb, if_pos (by simpa [Spec.maxUntypedBits] using hb)]; exact .rej
+    · rw [if_neg hb, if_neg (by simpa [Spec.maxUntypedBits] using hb)]
+      exact .ok _ _ (Inv.of_untyped _ _ _ hka rfl rfl)
+  · rw [unNodeY_typed a ha c0 k p h0ty h0rv hp, unaryGo_typed a ha k p hp]
+    by_cases hr : Spec.reprGo k (uopK k a p) = true
+    · rw [if_pos hr, if_pos hr]; exact .ok _ _ (Inv.of_typed _ _ _ rfl rfl hr)
+    · rw [if_neg hr, if_neg hr]; exact .rej
 
-/-- **conversion node** `T(x)` to an integer type -/
-theorem convNode_correct (k : IKind) (c1 : NS) (g1 gv : Spec.GV) (i1 : Inv c1 g1)
-    (hgo : Spec.convGo (.i k) g1 = .ok gv) :
-    ∃ n, convNodeY F0 (.i k) c1 = .ok n ∧ Inv n gv := by
+/-- **conversion node** `T(x)` to an integer type, both directions: the converted constant when the value is
+    representable in `T` — for an untyped operand through `convertUntyped`, for a typed one through the check that
+    7402c20 added — a compile error otherwise -/
+theorem convNode_rel (k : IKind) (c1 : NS) (g1 : Spec.GV) (i1 : Inv c1 g1) :
+    Rel (convNodeY F0 (.i k) c1) (Spec.convGo (.i k) g1) := by
   rcases i1.shape with ⟨ka, p, hka, rfl, h1ty, h1rv⟩ | ⟨k', p, rfl, h1ty, h1rv, hp⟩
   · -- untyped constant
     have hnum : Spec.isNumTy (.u ka) = true := by rcases hka with rfl | rfl <;> rfl
-    simp only [Spec.convGo, hnum, if_true, Spec.representGo, CV.toInt] at hgo
+    simp only [Spec.convGo, hnum, if_true, Spec.representGo, CV.toInt]
     by_cases hr : Spec.reprGo k p = true
-    · simp only [hr, if_true] at hgo
-      injection hgo with hgo; subst hgo
-      have hcv := convertUntypedY_int c1 ka p k h1ty h1rv hr
+    · simp only [hr, if_true]
+      have hcv := convertUntypedY_int c1 ka hka p k h1ty h1rv hr
       have hrep := representableY_int k p hr
-      refine ⟨{ rv := .r (.i k) (.int p), ty := .t (.i k), inner := ({ c1 with rv := .r (.i k) (.int p), ty := .t (.i k), self := false } : NS).loose }, ?_, Inv.of_typed _ _ _ rfl rfl hr⟩
-      simp only [convNodeY, h1rv, hrep, if_true, bind_ok, h1ty, Ty.untyped, hcv, reflectConvert, wrapK_of_repr k p hr]
-    · simp [hr] at hgo
+      have hn : convNodeY F0 (.i k) c1 = .ok { rv := .r (.i k) (.int p), ty := .t (.i k),
+          inner := ({ c1 with rv := .r (.i k) (.int p), ty := .t (.i k), self := false, set := false } : NS).loose } := by
+        simp only [convNodeY, h1rv, hrep, if_true, bind_ok, h1ty, Ty.untyped, hcv, reflectConvert, wrapK_of_repr k p hr]
+      rw [hn]
+      exact .ok _ _ (Inv.of_typed _ _ _ rfl rfl hr)
+    · have hr' : Spec.reprGo k p = false := by simpa using hr
+      have hrep : representableY F0 (.int p) (.i k) = false := by
+        simp only [representableY, CV.toInt]
+        show reprY Expected.C03.reprFacts k p = false
+        rw [reprY_eq_reprGo]; exact hr'
+      have hint : (Ty.u ka).isInt = true := by rcases hka with rfl | rfl <;> rfl
+      refine Rel.of_rej ?_ (by simp [hr'])
+      simp [convNodeY, h1rv, hrep, h1ty]
   · -- typed operand
-    simp only [Spec.convGo, Spec.isNumTy, Spec.isIntTy, Bool.true_or, if_true, Spec.representGo, CV.toInt] at hgo
+    simp only [Spec.convGo, Spec.isNumTy, Spec.isIntTy, Bool.true_or, if_true, Spec.representGo, CV.toInt]
+    have hrep : representableY F0 (.int p) (.i k) = Spec.reprGo k p := by
+      simp only [representableY, CV.toInt]; exact reprY_eq_reprGo k p
     by_cases hr : Spec.reprGo k p = true
-    · simp only [hr, if_true] at hgo
-      injection hgo with hgo; subst hgo
-      refine ⟨{ rv := .r (.i k) (.int p), ty := .t (.i k), inner := c1.loose }, ?_, Inv.of_typed _ _ _ rfl rfl hr⟩
-      simp only [convNodeY, h1rv, h1ty, Ty.rtype, convertibleY, if_true, bind_ok, Ty.untyped, reflectConvert,
-        wrapK_of_repr k p hr]
-    · simp [hr] at hgo
+    · simp only [hr, if_true]
+      have hn : convNodeY F0 (.i k) c1 = .ok { rv := .r (.i k) (.int p), ty := .t (.i k), inner := c1.loose } := by
+        simp [convNodeY, h1rv, h1ty, Ty.rtype, convertibleY, Ty.untyped, reflectConvert, wrapK_of_repr k p hr,
+          Expected.C03.checkFacts, BT.isInt, hrep, hr]
+      rw [hn]
+      exact .ok _ _ (Inv.of_typed _ _ _ rfl rfl hr)
+    · have hr' : Spec.reprGo k p = false := by simpa using hr
+      refine Rel.of_rej ?_ (by simp [hr'])
+      simp [convNodeY, h1rv, Expected.C03.checkFacts, BT.isInt, hrep, hr']
 
 end YaegiVerif.Proofs.C03
